@@ -384,6 +384,14 @@ def execute(sc):
     if mo:
         ms = misc.get("mosoln")
         if ms is not None:
+            # the set the preference is applied to has to be a non-dominated one (all objectives are minimised as reported)
+            Fm = numpy.asarray(ms.soln_obj, dtype=float)
+            for a_ in range(len(Fm)):
+                for b_ in range(len(Fm)):
+                    if a_ != b_ and numpy.all(Fm[a_] <= Fm[b_]) and numpy.any(Fm[a_] < Fm[b_]):
+                        V.append(viol("preferred-front-member", C, "dominated-member-offered",
+                                      "the solution set handed to the preference step contains %s, dominated by %s" % (Fm[b_].tolist(), Fm[a_].tolist())))
+                        return _out(sc, V, log, faults, probes, True, g)
             nd = sc.get("ndset") or {"wt": 1.0, "kind": "negsum", "col": 0}
             score = nd["wt"] * _ndset(numpy.asarray(ms.soln_obj), kind=nd["kind"], col=nd["col"])
             if nd["wt"] != 1.0 or nd["kind"] != "negsum":
